@@ -118,11 +118,32 @@ PROPS = {
             {"run": "^TestC04Exhaustive$", "shards": 16, "quick_shards": 4, "timeout_quick": 600, "timeout_thorough": 3000},
         ],
     },
+    "C15": {
+        "rule": ("call trees from a grammar: value := Int64 | Uint64 | Float64 | Float32 | String | Bool | Time | Raw(number literal) | "
+                 "object{(key,value)*} | array{value*}, depth <=6, width <=5, empty containers, strings and keys from a pool of JSON-hostile "
+                 "values (quotes, backslashes, every C0 control, DEL, U+2028/9, astral, invalid UTF-8), arbitrary UTF-8, arbitrary bytes and - "
+                 "exhaustively - every single byte 0..255 at start/middle/end; numbers boundary-biased, finite floats; histories of 1-4 documents "
+                 "on one JSONOutput separated by Reset, some abandoned half-written. Oracle: json.Valid; encoding/json token stream (UseNumber) "
+                 "equals the call tree in order (ints as decimal text, floats by ParseFloat equality, strings exact or with U+FFFD per invalid "
+                 "byte, times by instant, raw literals verbatim); exactly one document; output on the re-used outputter byte-identical to a new "
+                 "one. Non-trivial = depth >=2 with an empty container or a string needing escapes; distinct by tree hash."),
+        "jobs": [{"run": "^TestC15", "shards": 16, "timeout_quick": 600, "timeout_thorough": 3000}],
+    },
+    "C14": {
+        "rule": ("type definitions only: generated struct/slice/map/pointer compositions (up to 8 fields per struct, json tags with and without "
+                 "names/options, flat/intern/proto options, skipped and unexported fields, null types) and compiled named / generic / embedded "
+                 "catalog types, under the 4 configs. Oracle: plenc's Descriptor compared node by node with the descriptor the harness derives from "
+                 "the type definition alone (index, json-or-Go name, field type by wire encoding, Go struct type name, explicit presence, "
+                 "timestamp / map / map-entry logical types, element count and order; the synthetic type name of map entries is not asserted). "
+                 "Recursive types are excluded by construction and counted under the open finding F10. Non-trivial = >=3 encoded fields of >=2 "
+                 "descriptor types; distinct by type hash."),
+        "jobs": [{"run": "^TestC14", "shards": 32, "timeout_quick": 600, "timeout_thorough": 3000}],
+    },
 }
 
 # Properties not (yet) claimed, with the reason. Kept current by hand.
 NOT_APPLICABLE = {p: "check not built yet in this commit (work in progress; the technique applies, see DESIGN.md)" for p in
-                  ["C07", "C08", "C13", "C14", "C15", "C16", "C17", "C19", "C20"]}
+                  ["C07", "C08", "C13", "C16", "C17", "C19", "C20"]}
 
 # commits in /repo that add build-tag-guarded hooks
 HOOK_COMMITS = []
